@@ -263,6 +263,7 @@ impl<Query, Mutation, Subscription> SchemaBuilder<Query, Mutation, Subscription>
         if self.registry.enable_federation || self.registry.has_entities() {
             self.registry.create_federation_types();
         }
+        self.registry.flatten_nested_interfaces();
 
         Schema(Arc::new(SchemaInner {
             validation_mode: self.validation_mode,
